@@ -125,7 +125,8 @@ def classify(text, rc):
         loc = "%s:%s" % (os.path.basename(m.group(2)), m.group(3))
         if "/src/" not in m.group(2):         # reported inside a system header (std::vector::operator[] ...): name the library frame
             loc = _where(text, m.start()) or loc
-        return "violation", "ubsan:%s@%s" % (m.group(1), loc), ("UndefinedBehaviorSanitizer: " + m.group(4) + "\n" + _report_tail(text, m.start()))[:3000]
+        fn = re.search(r"\[in ([^\](]+)", m.group(4))       # enclosing function: keeps a signature stable when line numbers move
+        return "violation", "ubsan:%s@%s%s" % (m.group(1), loc, "[%s]" % fn.group(1) if fn else ""), ("UndefinedBehaviorSanitizer: " + m.group(4) + "\n" + _report_tail(text, m.start()))[:3000]
     m = re.search(r"ERROR: AddressSanitizer: ([\w-]+)", text)
     if m:
         where = _where(text, m.start())
